@@ -88,10 +88,9 @@ func ParseString(s string) (dep.Type, error) {
 			w++
 			continue
 		}
-		for i < len(items) {
+		for ; i < len(items); i++ {
 			s := items[i]
 			quoted = append(quoted, s)
-			i++
 			if s[len(s)-1] == '"' {
 				if len(s) >= 2 && s[len(s)-2:] == `\"` {
 					continue
